@@ -15,7 +15,7 @@ MANIFEST = {
 }
 
 PATH_CHECKS = ("raw_agree", "convert_to_raw_agree", "header_body_split", "header_body_decode", "raw_body_consumed",
-               "raw_body_consumed_plain", "discard_consumed", "discard_seek_consumed", "reencode_equal", "chunked_raw")
+               "raw_body_consumed_plain", "discard_consumed", "discard_seek_consumed", "discard_unseekable_consumed", "reencode_equal", "chunked_raw")
 
 
 def check(run):
